@@ -601,6 +601,7 @@ void executeRun(const Desc& d, Obs& o) {
     SimIO& io = simIO();
     o.console = io.console; o.writesAfterClose = io.writesAfterClose; o.badHandle = io.badHandle;
     for (size_t i = 0; i < io.files.size(); i++) o.files.push_back(*io.files[i]);
+    if (getenv("RUNSIM_DEBUG")) { fprintf(stderr, "---- child console (%zu bytes)\n%s\n---- procLog:", o.childConsole.size(), o.childConsole.c_str()); for (size_t i = 0; i + 2 < o.procLog.size(); i += 3) fprintf(stderr, " (%lld,%lld,%lld)", (long long)o.procLog[i], (long long)o.procLog[i + 1], (long long)o.procLog[i + 2]); fprintf(stderr, "\n"); }
     if (d.pi("static_wrapper")) staticWrapperEpilogue(d, o);
 }
 
